@@ -27,12 +27,41 @@ use util::{arg_flag, arg_val, Rng};
 /// old bytes would usually still be there and the defect would go unnoticed; this allocator makes it
 /// visible: freed memory is overwritten first and a reallocation always moves.
 struct Poison;
+/// Ring of the latest (address, size) pairs of freed blocks of at least 64 bytes (no allocation in here).
+pub const FREED_SLOTS: usize = 1024;
+#[allow(clippy::declare_interior_mutable_const)]
+const AZ: std::sync::atomic::AtomicUsize = std::sync::atomic::AtomicUsize::new(0);
+pub static FREED: [std::sync::atomic::AtomicUsize; 2 * FREED_SLOTS] = [AZ; 2 * FREED_SLOTS];
+pub static FREED_N: std::sync::atomic::AtomicUsize = std::sync::atomic::AtomicUsize::new(0);
+fn note_freed(p: *mut u8, size: usize) {
+    use std::sync::atomic::Ordering::Relaxed;
+    if size >= 64 {
+        let i = FREED_N.fetch_add(1, Relaxed) % FREED_SLOTS;
+        FREED[2 * i].store(p as usize, Relaxed);
+        FREED[2 * i + 1].store(size, Relaxed);
+    }
+}
+/// Was a block containing `addr` freed since the mark `since` (a value of FREED_N)?  `None` if the ring has
+/// wrapped meanwhile.
+pub fn freed_since(since: usize, addr: usize) -> Option<bool> {
+    use std::sync::atomic::Ordering::Relaxed;
+    let now = FREED_N.load(Relaxed);
+    if now - since > FREED_SLOTS {
+        return None;
+    }
+    Some((since..now).any(|j| {
+        let i = j % FREED_SLOTS;
+        let (p, l) = (FREED[2 * i].load(Relaxed), FREED[2 * i + 1].load(Relaxed));
+        addr >= p && addr < p + l
+    }))
+}
 unsafe impl std::alloc::GlobalAlloc for Poison {
     unsafe fn alloc(&self, l: std::alloc::Layout) -> *mut u8 {
         std::alloc::System.alloc(l)
     }
     unsafe fn dealloc(&self, p: *mut u8, l: std::alloc::Layout) {
         std::ptr::write_bytes(p, 0xDD, l.size());
+        note_freed(p, l.size());
         std::alloc::System.dealloc(p, l)
     }
     unsafe fn realloc(&self, p: *mut u8, l: std::alloc::Layout, new_size: usize) -> *mut u8 {
@@ -41,6 +70,7 @@ unsafe impl std::alloc::GlobalAlloc for Poison {
         if !q.is_null() {
             std::ptr::copy_nonoverlapping(p, q, l.size().min(new_size));
             std::ptr::write_bytes(p, 0xDD, l.size());
+            note_freed(p, l.size());
             std::alloc::System.dealloc(p, l);
         }
         q
@@ -423,6 +453,9 @@ fn cmd_chain(args: &[String], seed: u64, n: u64, out: &str, summary: &str) {
         }
         if let Some(k) = arg_val(args, "--all-flags").and_then(|s| s.parse::<usize>().ok()) {
             gen_all_flags(&mut r, k, &mut scenarios, hold);
+        }
+        if hold {
+            gen_hold_edges(&mut r, &mut scenarios);
         }
         for i in 0..n {
             let mut rr = r.fork();
